@@ -8,6 +8,7 @@ BUILD = os.path.join(ROOT, "build")
 REPO = os.environ.get("VERIF_REPO", "/repo")
 DRV = os.path.join(LEAN, ".lake", "build", "bin", "hcdrv")
 HBIN = os.path.join(BUILD, "cargo", "release", "hcharness")
+JOBS = int(os.environ.get("VERIF_JOBS", "12"))
 ALLOWED_AXIOMS = {"propext", "Classical.choice", "Quot.sound"}
 FORBIDDEN = re.compile(r"\b(sorry|admit|native_decide|bv_decide|implemented_by|unsafe)\b|^\s*axiom\s|maxHeartbeats\s+0")
 
@@ -155,9 +156,19 @@ def compare(prop, case_lines, res):
             res.harness_errors.append(l[:200]); continue
         todo.append((l, pc))
     if not todo: return
-    rc, outs, err = run_driver([t[0].rsplit(" # ", 1)[0] for t in todo])
-    if rc != 0 or len(outs) < len(todo):
-        res.harness_errors.append(f"driver failed rc={rc} answered {len(outs)} of {len(todo)}: {err[-500:]}")
+    # the driver is single-threaded: shard the cases over several driver processes
+    lines = [t[0].rsplit(" # ", 1)[0] for t in todo]
+    nshard = max(1, min(JOBS, len(lines) // 8))
+    size = (len(lines) + nshard - 1) // nshard
+    chunks = [lines[i:i + size] for i in range(0, len(lines), size)]
+    import concurrent.futures
+    outs = []
+    with concurrent.futures.ThreadPoolExecutor(max_workers=nshard) as ex:
+        for (rc, o, err), ch in zip(ex.map(run_driver, chunks), chunks):
+            o = o[:len(ch)] if len(o) >= len(ch) else o + ["BAD driver-died"] * (len(ch) - len(o))
+            if rc != 0:
+                res.harness_errors.append(f"driver failed rc={rc}: {err[-500:]}")
+            outs += o
     for (l, (lhs, impl, cls)), o in zip(todo, outs):
         res.n += 1
         fn = lhs.split(" ")[0]
@@ -227,12 +238,16 @@ def check(prop, tier, seed, budget=None):
     res = Result()
     harness_ok = not any("harness build" in b["obligation"] for b in broken) and os.path.exists(DRV)
     runs = cfg["runs"](tier, seed) if harness_ok else []
-    for extra in runs:
+    import concurrent.futures
+    def one(extra):
         s = extra.get("seed", seed)
-        rc, out, err = run_harness(prop, tier, s, extra.get("args", ()), timeout=extra.get("timeout", 7200))
+        return extra, run_harness(prop, tier, s, extra.get("args", ()), timeout=extra.get("timeout", 7200))
+    with concurrent.futures.ThreadPoolExecutor(max_workers=max(1, min(JOBS, len(runs) or 1))) as ex:
+        results = list(ex.map(one, runs))
+    for extra, (rc, out, err) in results:
         lines = out.split("\n")
         if rc != 0:
-            res.harness_errors.append(f"harness exit {rc} (seed {s} args {extra.get('args', ())}): {err[-800:]}")
+            res.harness_errors.append(f"harness exit {rc} (seed {extra.get('seed', seed)} args {extra.get('args', ())}): {err[-800:]}")
         compare(prop, lines, res)
     known = load_known()
     viol = []; known_hits = {}
